@@ -49,3 +49,6 @@ func VerifDefaultOpts() Opts {
 
 // VerifResultWantsRedeem exposes the redeem-on-merge flag.
 func VerifResultWantsRedeem(r *Result) bool { return r != nil && r.wantsRedeemOnMerge }
+
+// VerifWithRecycleResults exposes the private option AgainstSchema uses (results borrowed from the pool).
+func VerifWithRecycleResults() Option { return withRecycleResults(true) }
